@@ -255,6 +255,9 @@ class ExecutionState:
         # Operations whose parent has completed
         self._parent_done: set[str] = set()
 
+        # CONTEXT operations whose completion (SUCCEED/FAIL) has been handed over
+        self._done_contexts: set[str] = set()
+
         # Protects parent_to_children and parent_done
         self._parent_done_lock: Lock = Lock()
         self._replay_status: ReplayStatus = replay_status
@@ -444,6 +447,15 @@ class ExecutionState:
                     in {OperationAction.SUCCEED, OperationAction.FAIL}
                 ):
                     self._mark_orphans(operation_update.operation_id)
+                    self._done_contexts.add(operation_update.operation_id)
+
+                # An operation first seen after its parent completed (or after its parent was
+                # orphaned) is not among the descendants marked above: it is an orphan as well.
+                if operation_update.parent_id and (
+                    operation_update.parent_id in self._done_contexts
+                    or operation_update.parent_id in self._parent_done
+                ):
+                    self._parent_done.add(operation_update.operation_id)
 
                 # Check if this operation's parent is done
                 if operation_update.operation_id in self._parent_done:
